@@ -35,13 +35,28 @@ def run(ctx):
         runs.append(("exh", "process", 1, 3, 3))
     # large key alphabet (hash-table growth / collisions): 300 names, judged with the *_big cfgs
     runs.append(("rand", "thread", 0, 300, 2500 if q else 8000, 1))
+    for be in ("thread", "process"):
+        runs.append(("collide", be, 0, 8, 400 if q else 3000, 6 if q else 20))
+        runs.append(("collide", be, 4, 12, 400 if q else 3000, 4 if q else 20))
     runs.append(("rand", "process", 0, 300, 2500 if q else 8000, 1))
     n = 0
     for spec in runs:
         n += 1
         t = os.path.join(ctx.work, "c07-%d.ndjson" % n)
-        rc, out, err = ctx.run_harness(exe, spec, trace=t, timeout=900)
+        env = {}
+        if spec[0] == "collide":
+            # every key / trigger name in ONE bucket chain of the hash indexes (erase in the middle of a chain, long chains)
+            env = {"VERIF_COLLIDE": "1"}
+            spec = ("rand",) + tuple(spec[1:])
+        rc, out, err = ctx.run_harness(exe, spec, trace=t, timeout=900, env=env)
         if rc != 0:
+            if rc in (-11, -6, -7, -8, 134, 139):
+                # the real cache crashed (SIGSEGV/SIGABRT/...) in a single-threaded, valid operation sequence
+                rp = os.path.join(ctx.replays, "cache-crash-%d.txt" % n)
+                body = open(t).read()[-6000:] if os.path.exists(t) else ""
+                open(rp, "w").write("cache_drv %s rc=%s\n%s\n--- last events ---\n%s" % (" ".join(map(str, spec)), rc, err[-2000:], body))
+                ctx.violation("cache:crash", "the cache crashed (signal %d) in a sequential operation sequence: cache_drv %s" % (abs(rc) if rc < 0 else rc - 128, " ".join(map(str, spec))), rp)
+                continue
             ctx.undecided.append("cache_drv %s failed rc=%s %s" % (spec, rc, err[-500:]))
             continue
         with open(t) as f:
